@@ -8,6 +8,8 @@ import (
 	"io"
 	"math"
 	"math/rand"
+	"net/http"
+	"net/http/httptest"
 	"reflect"
 	"sort"
 	"strconv"
@@ -78,6 +80,37 @@ func (c *CJ) UnmarshalJSON(b []byte) error {
 	return err
 }
 
+// Tri gives JSON null a meaning of its own (absent / explicit null / value), as optional-field types do.
+type Tri struct {
+	St int8 // 0 absent, 1 explicit null, 2 value
+	V  int
+}
+
+func (t Tri) MarshalJSON() ([]byte, error) {
+	switch t.St {
+	case 1:
+		return []byte("null"), nil
+	case 2:
+		return json.Marshal(t.V)
+	}
+	return []byte(`"absent"`), nil
+}
+func (t *Tri) UnmarshalJSON(b []byte) error {
+	switch strings.TrimSpace(string(b)) {
+	case "null":
+		*t = Tri{St: 1}
+	case `"absent"`:
+		*t = Tri{}
+	default:
+		var v int
+		if err := json.Unmarshal(b, &v); err != nil {
+			return err
+		}
+		*t = Tri{St: 2, V: v}
+	}
+	return nil
+}
+
 type MyInt int
 type MyStr string
 type Enc struct {
@@ -118,6 +151,9 @@ func (c *Cat) in(m string, args ...interface{}) {
 		b, err := json.Marshal(a)
 		if err != nil {
 			b = []byte("MARSHAL-ERROR:" + err.Error())
+		}
+		if raw, ok := a.(json.RawMessage); ok && raw == nil {
+			b = []byte("<nil RawMessage>") // the round trip of any JSON text, null included, is that text
 		}
 		r.args = append(r.args, string(b))
 		r.types = append(r.types, fmt.Sprintf("%T", a))
@@ -186,6 +222,10 @@ func (c *Cat) Dyn(ctx context.Context, a json.RawMessage, b interface{}, d []int
 func (c *Cat) Misc(a time.Time, b [3]int, d CJ, e *CJ, f []CJ, g [2]string) (time.Time, error) {
 	c.in("Misc", a, b, d, e, f, g)
 	return catOut[time.Time](c, "Misc")
+}
+func (c *Cat) Tris(ctx context.Context, a Tri, b *Tri, d []Tri, e json.RawMessage) (Tri, error) {
+	c.in("Tris", a, b, d, e)
+	return catOut[Tri](c, "Tris")
 }
 func (c *Cat) Six(a int, b string, d bool, e float64, f []string, g *int) (string, error) {
 	c.in("Six", a, b, d, e, f, g)
@@ -348,6 +388,7 @@ var (
 	tRaw  = reflect.TypeOf(json.RawMessage{})
 	tTime = reflect.TypeOf(time.Time{})
 	tCJ   = reflect.TypeOf(CJ{})
+	tTri  = reflect.TypeOf(Tri{})
 	tAny  = reflect.TypeOf((*interface{})(nil)).Elem()
 )
 
@@ -371,6 +412,15 @@ func (g *genr) gen(t reflect.Type, depth int) reflect.Value {
 			g.flag("0")
 		}
 		v.Set(reflect.ValueOf(tm))
+		return v
+	case tTri:
+		st := g.rng.Intn(3)
+		g.flag("Tri" + strconv.Itoa(st))
+		t := Tri{St: int8(st)}
+		if st == 2 {
+			t.V = g.rng.Intn(1000) - 500
+		}
+		v.Set(reflect.ValueOf(t))
 		return v
 	case tCJ:
 		g.flag("C")
@@ -593,7 +643,7 @@ func (c01) Plan(tier string, seed int64) []core.Scenario {
 	}
 	var out []core.Scenario
 	for i := 0; i < n; i++ {
-		out = append(out, core.Scenario{Kind: "calls", Seed: seed*179424673 + int64(i), S: map[string]string{"transport": []string{"http", "ws", "custom"}[i%3]}, N: map[string]int{"fmt": (i / 3) % 5, "calls": per, "i": i}})
+		out = append(out, core.Scenario{Kind: "calls", Seed: seed*179424673 + int64(i), S: map[string]string{"transport": []string{"http", "ws", "custom"}[i%3]}, N: map[string]int{"fmt": (i / 3) % 5, "calls": per, "i": i, "redir": []int{0, 0, 307, 0, 308, 0, 0}[(i/3)%7]}})
 	}
 	return out
 }
@@ -658,7 +708,19 @@ func (c01) Run(sc core.Scenario) core.Result {
 			return io.NopCloser(&buf), nil
 		}, copts...)
 	} else {
-		closer, err = jsonrpc.NewMergeClient(context.Background(), env.Addr(tr), "Cat", []interface{}{cli.Interface()}, nil, copts...)
+		addr := env.Addr(tr)
+		if code := sc.I("redir"); code != 0 && tr == "http" {
+			// the endpoint the client is given answers with a method-preserving redirect to the real one
+			// (path migration, reverse proxy): a configuration of the HTTP transport like any other
+			target := addr
+			rd := httptest.NewServer(http.HandlerFunc(func(w http.ResponseWriter, q *http.Request) {
+				http.Redirect(w, q, target+q.URL.Path, code)
+			}))
+			defer rd.Close()
+			addr = rd.URL
+			tr = fmt.Sprintf("http(%d redirect)", code)
+		}
+		closer, err = jsonrpc.NewMergeClient(context.Background(), addr, "Cat", []interface{}{cli.Interface()}, nil, copts...)
 	}
 	if err != nil {
 		r.Inconclusive("client: %v", err)
@@ -676,7 +738,7 @@ func (c01) Run(sc core.Scenario) core.Result {
 	if tr == "custom" {
 		closer2, err = jsonrpc.NewCustomClient("Cat", []interface{}{cli2.Interface()}, customDo(env2.RPC), jsonrpc.WithMethodNameFormatter(fm.f))
 	} else {
-		closer2, err = jsonrpc.NewMergeClient(context.Background(), env2.Addr(tr), "Cat", []interface{}{cli2.Interface()}, nil, jsonrpc.WithMethodNameFormatter(fm.f))
+		closer2, err = jsonrpc.NewMergeClient(context.Background(), env2.Addr(sc.Str("transport")), "Cat", []interface{}{cli2.Interface()}, nil, jsonrpc.WithMethodNameFormatter(fm.f))
 	}
 	if err != nil {
 		r.Inconclusive("client: %v", err)
